@@ -820,13 +820,8 @@ pub fn walk(buf: &[u8], cache: &mut MCache, allowed: &[u16], cfg: &ModelCfg) -> 
                                 cache.ipfix.insert(*tid, def.clone());
                                 cache.tainted.remove(&(Proto::Ipfix, *tid));
                             }
-                            if tpls.len() > 1 {
-                                // listed structural finding: the library's public shape holds one
-                                // template per IPFIX set; what it caches for these ids is unreliable
-                                for (tid, _) in &tpls {
-                                    cache.tainted.insert((Proto::Ipfix, *tid));
-                                }
-                            }
+                            // (several records per set: the library reports only the first one - a
+                            // listed finding about the reported shape - but learns all of them)
                             MSetKind::Tpls { tpls, pad }
                         }
                         0 | 1 | 4..=255 => {
